@@ -251,6 +251,10 @@ func (tnc *TNC) runControlLoop() error {
 				if tnc.ptt != nil {
 					tnc.ptt.SetPTT(msg.Bool())
 				}
+			case cmdConnected:
+				// Set here, in stream order, so that data frames following
+				// immediately are not mistaken for unconnected data below.
+				tnc.connected = true
 			case cmdDisconnected:
 				tnc.state = Disconnected
 				tnc.eof()
@@ -629,7 +633,6 @@ func (tnc *TNC) arqCall(targetcall string, repeat int) error {
 				return ErrConnectTimeout
 			}
 		case cmdConnected: // TODO: Probably not what we should look for
-			tnc.connected = true
 			return nil
 		}
 	}
